@@ -746,6 +746,11 @@ func requiredStatus(method string, f *osOutcome, run *fsRun) (want []string, why
 				}
 			}
 		}
+		if f.Role == "destination" && e == "ENOTDIR" && (method == "COPY" || method == "MOVE") {
+			// the destination cannot even be examined because an ancestor of
+			// it is a file: there is no parent collection to create it in
+			return []string{"409"}, "a destination below something that is not a collection has no parent collection: 409"
+		}
 	case "os.Create", "os.OpenFile":
 		if method == "PUT" || (method == "COPY" && strings.HasPrefix(f.Role, "destination")) {
 			switch e {
